@@ -30,7 +30,9 @@ SPELLINGS: Dict[str, str] = {
 }
 
 COLKIND = {"long": "int", "int": "int", "double": "float", "float": "float", "string": "str", "boolean": "bool",
-           "timestamp": "ts", "date": "date", "time": "time"}
+           "timestamp": "ts", "date": "date", "time": "time",
+           # columns without stored bounds; bytes compare lexicographically (Python bytes ordering = memcmp order)
+           "binary": "bytes", "fixed": "bytes"}
 
 
 def pykind(v: Any) -> Optional[str]:
@@ -44,6 +46,8 @@ def pykind(v: Any) -> Optional[str]:
         return "float"
     if isinstance(v, str):
         return "str"
+    if isinstance(v, (bytes, bytearray)):
+        return "bytes"
     if isinstance(v, dt.datetime):
         return "ts"
     if isinstance(v, dt.date):
